@@ -598,7 +598,7 @@ def run(prop, report, tier, seed, replay=None):
             specs += WITNESSES       # the listed known-finding inputs always run first
         for i in range(n):
             bad = 0.1 if (prop == 'C15' and i % 3 == 0) else 0.0
-            reserved = 0.15 if (prop in ('C07', 'C09') and i % 10 == 0) else 0.0
+            reserved = 0.3 if (prop in ('C07', 'C09') and i % 5 == 0) else 0.0
             specs.append(V.gen_spec(rng, bad=bad, reserved=reserved, mixed=(prop in ('C07', 'C09'))))
     terms, kept = [], []
     dist = Counter()
